@@ -111,15 +111,18 @@ CompDefs ==
 
 NoMode == [short |-> FALSE, same |-> FALSE, zero |-> "word", rep |-> "none"]
 SimpleCase(p, v, m) == [kind |-> "simple", pats |-> p, v |-> v, mode |-> m, defs |-> <<>>]
-Cases ==
-       {SimpleCase(<<p>>, v, m) : p \in AllPats(L1), v \in Variants, m \in 1 .. Len(Modes)}
-  \cup {SimpleCase(<<p, q>>, v, m) : p \in AllPats(L2), q \in AllPats(L2), v \in Variants, m \in 1 .. Len(Modes)}
-  \cup {SimpleCase(<<p, q, r>>, v, m) : p \in AllPats(L3), q \in AllPats(L3), r \in AllPats(L3),
-                                        v \in Variants, m \in 1 .. Len(Modes)}
-  \cup {[kind |-> "composite", pats |-> <<>>, v |-> 0, mode |-> 0, defs |-> d] : d \in CompDefs}
+\* Init draws a case through nested quantifiers (IsCase) instead of cs \in (one big union set): TLC then
+\* enumerates the initial states one by one and never has to build and normalise a set of ~10^5 nested
+\* records (single-threaded; the thorough tier did not get past it within 40 minutes).
+IsCase(x) ==
+  \/ \E p \in AllPats(L1), v \in Variants, m \in 1 .. Len(Modes) : x = SimpleCase(<<p>>, v, m)
+  \/ \E p \in AllPats(L2), q \in AllPats(L2), v \in Variants, m \in 1 .. Len(Modes) : x = SimpleCase(<<p, q>>, v, m)
+  \/ \E p \in AllPats(L3), q \in AllPats(L3), r \in AllPats(L3), v \in Variants, m \in 1 .. Len(Modes) :
+        x = SimpleCase(<<p, q, r>>, v, m)
+  \/ \E d \in CompDefs : x = [kind |-> "composite", pats |-> <<>>, v |-> 0, mode |-> 0, defs |-> d]
   \* one contour of n on-curve points that all carry the same flag byte: the repeat count reaches 255 and the
   \* run has to be split (v = n; modes 1 and 3: maximal runs / first flag plain then a repeated one)
-  \cup {[kind |-> "long", pats |-> <<>>, v |-> n, mode |-> m, defs |-> <<>>] : n \in LongNs, m \in {1, 3}}
+  \/ \E n \in LongNs, m \in {1, 3} : x = [kind |-> "long", pats |-> <<>>, v |-> n, mode |-> m, defs |-> <<>>]
 
 LongContour(n) == << [j \in 1 .. n |-> [x |-> j, y |-> 2 * j, on |-> TRUE]] >>
 
@@ -264,7 +267,7 @@ EmitCase ==
                              st |-> r.st, exact |-> r.exact,
                              exp |-> IF r.st = "ok" THEN RefCommands(r.cs) ELSE <<>>])>>)
 
-Init == cs \in Cases /\ done = FALSE
+Init == IsCase(cs) /\ done = FALSE
 Next == ~done /\ done' = TRUE /\ cs' = cs
 Spec == Init /\ [][Next]_vars
 
